@@ -43,17 +43,103 @@ cls(
         ("C18.ka.count", "self.keep_alive_requests >= 0", "C18"),
     ],
     rely=[("H11.rely.requests-monotone", "self.keep_alive_requests >= old(self.keep_alive_requests)", "C06,C18")],
-    task_stable={"reader": ["connection"]},
+    # only the reader counts requests and swaps the connection object (WebSocket upgrade)
+    task_rely={"reader": [("H11.rely[reader].count", "self.keep_alive_requests == old(self.keep_alive_requests)", "C06,C18"),
+                          # only the reader attaches a stream; others can only detach it
+                          ("H11.rely[reader].no-new-stream", "implies(old(self.stream) is None, self.stream is None)", "C06")]},
+    task_stable={"reader": ["connection", "keep_alive_requests"]},
 )
 
 fn(H1 + "._send_h11_event", params={"event": "opaque"}, inline=True, props=("C02",))
 fn(H1 + "._close_stream", params={}, inline=True, props=("C03",))
 fn(H1 + "._send_error_response", params={"status_code": "int"}, inline=True, props=("C04",))
 
-fn(H1 + ".handle", params={"event": _ev.IO_EVENTS}, task="reader",
+fn(H1 + ".handle", params={"event": _ev.IO_EVENTS}, task="reader", model_opts={"h11_server_headers_ok": True},
+   # the servers stop feeding data once they have seen EOF (both _read_data loops)
+   requires=[("h11.handle.pre.no-data-after-eof", "implies(isinstance(event, RawData) and isinstance(self.connection, h11.Connection), not self.connection.recv_closed or len(event.data) == 0)")],
    raises={"H2CProtocolRequiredError": None, "H2ProtocolAssumedError": None},
    props=("C04", "C13"))
 
-fn(H1 + "._handle_events", params={}, task="reader",
+fn(H1 + "._handle_events", params={}, task="reader", model_opts={"h11_server_headers_ok": True},
    raises={"H2CProtocolRequiredError": None, "H2ProtocolAssumedError": None},
    props=("C04", "C06", "C07", "C01"))
+
+REQ = "obj h11:Request"
+
+fn(H1 + "._check_protocol", params={"event": REQ}, task="reader", model_opts={"h11_server_headers_ok": True},
+   requires=[("check.pre.request-just-read", "isinstance(self.connection, h11.Connection) and self.connection.our_state is h11.SEND_RESPONSE and self.stream is None")],
+   raises={"H2CProtocolRequiredError": None, "H2ProtocolAssumedError": None},
+   loops={0: {"locals": {"name": "bstr", "value": "bstr", "sanitised_name": "str"}}},
+   ensures=[
+       # C13.prior: anything that returns normally is not the HTTP/2 preface
+       ("C13.prior.not-missed", "not (event.method == b'PRI' and event.target == b'*' and event.http_version == b'2.0')", "C13"),
+   ],
+   props=("C04", "C13"))
+
+fn(H1 + "._create_stream", params={"request": REQ}, task="reader",
+   requires=[("create.pre.no-stream", "self.stream is None"),
+             ("create.pre.h11", "isinstance(self.connection, h11.Connection) and self.connection.their_state is not h11.IDLE")],
+   loops={0: {"locals": {"name": "bstr", "value": "bstr", "sanitised_name": "str"},
+              # trusted one-liner about the header scan: a non-empty upgrade_value came from a header
+              "exit_assume": ["implies(upgrade_value != '', has_header(request.headers, b'upgrade'))"]}},
+   ensures=[
+       # C06.close-hdr / C18: the request is counted exactly once, before the application can run
+       ("C06.count", "self.keep_alive_requests == old(self.keep_alive_requests) + 1", "C06,C18"),
+   ],
+   props=("C04", "C01", "C06", "C11", "C18"))
+
+fn(H1 + "._maybe_recycle", params={}, task="app",
+   ensures=[
+       # C06.recycle: the connection is reused only if request and response were both complete and
+       # shutdown has not begun; otherwise it is closed
+       ("C06.recycle.only-when-done", "implies(trace_any('h11', 'x', x == 'start_next_cycle'), not old(self.context.terminated.flag))", "C06,C15"),
+       ("C06.recycle.or-close", "trace_any('h11', 'x', x == 'start_next_cycle') or trace_any('sent', 'x', isinstance(x, Closed))", "C06,C07"),
+       ("C07.h11.idle-after-recycle", "implies(trace_any('h11', 'x', x == 'start_next_cycle'), trace_any('sent', 'x', isinstance(x, Updated) and x.idle == True))", "C07"),
+       ("C06.recycle.resumes-reader", "self.can_read.flag or yielded()", "C06,C07"),
+   ],
+   props=("C06", "C07", "C15", "C03"))
+
+fn(H1 + ".stream_send", params={"event": _ev.STREAM_EVENTS}, task="app",
+   raises={"h11.LocalProtocolError": None},
+   ensures=[
+       # C06.close-hdr: "connection: close" is announced exactly when the per-connection maximum is reached
+       ("C02.h11.body", "implies(isinstance(event, Body), trace_all('h11', 'x', isinstance(x, h11.Data) and x.data == event.data))", "C02"),
+       ("C02.h11.end", "implies(isinstance(event, EndBody), trace_all('h11', 'x', isinstance(x, h11.EndOfMessage)))", "C02"),
+       ("C02.h11.raw", "trace_all('sent', 'x', isinstance(x, (RawData, Closed, Updated)))", "C02"),
+   ],
+   props=("C02", "C06", "C12"))
+
+fn(H1 + ".__init__",
+   params={"app": "opaque", "config": "obj hypercorn.config:Config", "context": "obj hypercorn.typing:WorkerContext", "task_group": "obj hypercorn.typing:TaskGroup",
+           "connection_state": "opaque", "ssl": "bool", "client": "opaque", "server": "opaque", "send": "opaque"},
+   ensures=[("C18.h11.size", "isinstance(self.connection, h11.Connection) and self.connection.max_incomplete_event_size == config.h11_max_incomplete_size", "C18"),
+            ("H11.init", "self.stream is None and self.keep_alive_requests == 0 and isinstance(self.connection, h11.Connection) and self.connection.their_state is h11.IDLE and self.connection.our_state is h11.IDLE", "C06")],
+   props=("C18", "C06"))
+
+cls(M + "H2CProtocolRequiredError", fields={"data": "bytes", "headers": "hdrs", "settings": "str"})
+cls(M + "H2ProtocolAssumedError", fields={"data": "bytes"})
+
+# ------------------------------------------------------------------------------ ProtocolWrapper
+PW = "hypercorn.protocol:ProtocolWrapper"
+cls(PW, fields={"app": "opaque", "config": "obj hypercorn.config:Config", "context": "obj hypercorn.typing:WorkerContext",
+                "task_group": "obj hypercorn.typing:TaskGroup", "ssl": "bool", "client": "opaque", "server": "opaque", "send": "opaque",
+                "state": "opaque", "protocol": "obj " + H1 + " | obj hypercorn.protocol.h2:H2Protocol"},
+    callbacks={"send": Callback(name="send", effect="yields", record="sent")})
+
+fn(PW + ".__init__",
+   params={"app": "opaque", "config": "obj hypercorn.config:Config", "context": "obj hypercorn.typing:WorkerContext", "task_group": "obj hypercorn.typing:TaskGroup",
+           "state": "opaque", "ssl": "bool", "client": "opaque", "server": "opaque", "send": "opaque", "alpn_protocol": "opt str"},
+   ensures=[("C13.alpn", "isinstance(self.protocol, H2Protocol) == (alpn_protocol == 'h2')", "C13"),
+            ("C13.alpn.h11", "isinstance(self.protocol, H11Protocol) == (alpn_protocol != 'h2')", "C13")],
+   props=("C13",))
+
+# what the wrapper needs from the two protocols
+fn(PW + ".handle", params={"event": _ev.IO_EVENTS}, task="reader",
+   requires=[("wrapper.handle.pre.no-data-after-eof", "implies(isinstance(event, RawData) and isinstance(self.protocol, H11Protocol) and isinstance(self.protocol.connection, lib_h11.Connection), not self.protocol.connection.recv_closed or len(event.data) == 0)")],
+   ensures=[
+       # C13.handover: after a protocol switch the new HTTP/2 protocol gets exactly the bytes h11 had
+       # not consumed, once, and only if there are any
+       ("C13.handover.h2", "implies(trace_any('calls', 'x', x[0] == 'H2Protocol.initiate'), isinstance(self.protocol, H2Protocol))", "C13"),
+       ("C13.no-switch-keeps", "implies(not trace_any('calls', 'x', x[0] == 'H2Protocol.initiate'), same(self.protocol, old(self.protocol)))", "C13"),
+   ],
+   props=("C04", "C13"))
